@@ -6,6 +6,7 @@ import (
 	"fmt"
 	"hash/fnv"
 	"math/rand"
+	"os"
 	"sort"
 	"strings"
 	"sync"
@@ -200,8 +201,24 @@ func checkC19(c *Ctx) {
 	c.Assume("error messages are not compared; a runtime error must leave stdout empty (no body ran)")
 	pool := c.Pool()
 
-	// ---- literal patterns as written (MC_MatchLit), alongside the case-list families below
 	c.specDir()
+	// ---- a case block left by break / continue / next / return / exit: its bindings end with it (MC_MatchExit)
+	exitDone := make(chan any, 1)
+	go func() {
+		defer func() { exitDone <- recover() }()
+		c19Exit(c, pool)
+	}()
+	defer func() {
+		if p := <-exitDone; p != nil {
+			panic(p)
+		}
+	}()
+
+	if os.Getenv("VERIF_C19_ONLY") == "exit" { // development aid: only the MC_MatchExit family
+		return
+	}
+
+	// ---- literal patterns as written (MC_MatchLit), alongside the case-list families below
 	litDone := make(chan any, 1)
 	go func() {
 		defer func() { litDone <- recover() }()
